@@ -90,3 +90,36 @@ package cachepolicy
 //@   let x := asref(result, *executor)
 //@   ensures [C01.toexecutor.fresh_self_referential+C11.toexecutor] typeis(result, *executor) && fresh(x) && x.cachePolicy == c && x.BaseExecutor != nil && fresh(x.BaseExecutor) && typeis(x.Executor, *executor) && asref(x.Executor, *executor) == x
 //@   modifies nothing
+
+// Builder setters
+//@ func (*config).WithKey
+//@   builder
+//@   requires c != nil
+//@   ensures [C11.builder.key] c.key == key && len(c.cacheConditions) == old(len(c.cacheConditions)) && result == asiface(c)
+//@   modifies c.key
+//@ func (*config).CacheIf
+//@   builder
+//@   requires c != nil
+//@   oldlet n0 := len(c.cacheConditions)
+//@   ensures [C11.builder.cacheif] len(c.cacheConditions) == n0 + 1 && c.cacheConditions[n0] == predicate && (forall j int :: 0 <= j && j < n0 ==> c.cacheConditions[j] == old(c.cacheConditions[j])) && c.key == old(c.key) && result == asiface(c)
+//@   modifies c.cacheConditions
+//@ func (*config).OnCacheHit
+//@   builder
+//@   requires c != nil
+//@   ensures [C16.cache.listener_registered_hit] c.onHit == listener && c.onMiss == old(c.onMiss) && c.onCache == old(c.onCache) && result == asiface(c)
+//@   modifies c.onHit
+//@ func (*config).OnCacheMiss
+//@   builder
+//@   requires c != nil
+//@   ensures [C16.cache.listener_registered_miss] c.onMiss == listener && c.onHit == old(c.onHit) && c.onCache == old(c.onCache) && result == asiface(c)
+//@   modifies c.onMiss
+//@ func (*config).OnResultCached
+//@   builder
+//@   requires c != nil
+//@   ensures [C16.cache.listener_registered_cached] c.onCache == listener && c.onHit == old(c.onHit) && c.onMiss == old(c.onMiss) && result == asiface(c)
+//@   modifies c.onCache
+//@ func (*config).Build
+//@   builder
+//@   requires c != nil
+//@   ensures [C11.build.config] result != nil && typeis(result, *cachePolicy) && fresh(asref(result, *cachePolicy)) && asref(result, *cachePolicy).config == c
+//@   modifies nothing
